@@ -281,6 +281,8 @@ class Canon:
         self._defs = None
         self._cache = {}
         self._sig = {}
+        self._inlined = {}
+        self._all_done = False
         self._k = {}
 
     # -------------------------------------------------------------------------------------------------------- program facts
@@ -310,7 +312,7 @@ class Canon:
             name = fn.id
         else:
             return None
-        if not name.startswith("_") or name.startswith("__") or not (1 <= self._refs.get(name, 0) <= 2):
+        if not name.startswith("_") or name.startswith("__") or not (1 <= self._refs.get(name, 0) <= 6):
             return None
         ds = self._defs.get(name, [])
         if len(ds) != 1:
@@ -328,6 +330,8 @@ class Canon:
             return None
         if any(isinstance(x, (ast.Yield, ast.YieldFrom, ast.Await, ast.Global, ast.Nonlocal)) for x in ast.walk(h.node)):
             return None
+        if self._refs.get(name, 0) > 2 and sum(1 for x in ast.walk(h.node) if isinstance(x, ast.stmt)) - 1 > 5:
+            return None  # a helper shared by several callers is only written out when it is small
         return h
 
     def signature(self, f, call):
@@ -353,7 +357,10 @@ class Canon:
             name = fn.attr if isinstance(fn, ast.Attribute) else (fn.id if isinstance(fn, ast.Name) else None)
             cands = [d for d in self._defs.get(name, []) if d.kind in ("method", "function", "static", "class")] or None
             if cands is None and name is not None:
-                cl = self.p.find_class(name) if name[:1].isupper() else None
+                try:
+                    cl = self.p.find_class(name) if name[:1].isupper() else None
+                except Exception:  # noqa: BLE001  (not a class of the program)
+                    cl = None
                 if cl is not None and cl.find_method("__init__") is not None:
                     cands = [cl.find_method("__init__")]
         if not cands:
@@ -439,6 +446,7 @@ class Canon:
                 out.append(st)
                 continue
             new = _replace_returns(hnode.body, mode, st)
+            self._inlined[id(h)] = self._inlined.get(id(h), 0) + (1 if depth == 0 else 0)
             out.extend(binds + new)
         return out
 
@@ -473,6 +481,7 @@ class Canon:
                     env[body[0].targets[0].id] = subst(body[0].value, env)
                     body = body[1:]
                 if len(body) == 1 and isinstance(body[0], ast.Return) and body[0].value is not None:
+                    canon._inlined[id(h)] = canon._inlined.get(id(h), 0) + (1 if depth == 0 else 0)
                     return subst(body[0].value, env)
                 return n
 
@@ -499,6 +508,17 @@ class Canon:
             sel = _aliases(node)
             if not sel:
                 break
+            # values may mention other selected names: resolve them first
+            for _i in range(len(sel) + 1):
+                changed = False
+                for k in list(sel):
+                    if any(isinstance(x, ast.Name) and isinstance(x.ctx, ast.Load) and x.id in sel and x.id != k for x in ast.walk(sel[k])):
+                        t = _SubstAll({a: b for a, b in sel.items() if a != k})
+                        t._top = node
+                        sel[k] = t.visit(copy.deepcopy(sel[k]))
+                        changed = True
+                if not changed:
+                    break
             node = _Drop(sel).visit(node)
             node = _SubstAll(sel).visit(node)
             ast.fix_missing_locations(node)
@@ -562,6 +582,17 @@ class Canon:
         ast.fix_missing_locations(node)
         self._cache[k] = node
         return node
+
+    def absorbed(self, f):
+        self._index()
+        name = f.name
+        if not name.startswith("_") or name.startswith("__") or len(self._defs.get(name, [])) != 1 or not (1 <= self._refs.get(name, 0) <= 6):
+            return False
+        # the call sites are counted while the functions that mention the name are canonicalised
+        for g in self.p.all_functions():
+            if g is not f and id(g) not in self._cache and any((isinstance(x, ast.Attribute) and x.attr == name) or (isinstance(x, ast.Name) and x.id == name) for x in ast.walk(g.node)):
+                self.fn(g)
+        return self._inlined.get(id(f), 0) == self._refs.get(name, 0)
 
     def src(self, f):
         from .rules.common import Src
@@ -629,7 +660,7 @@ class _Drop(ast.NodeTransformer):
         self.env = env
 
     def visit_Assign(self, n):
-        if len(n.targets) == 1 and isinstance(n.targets[0], ast.Name) and n.targets[0].id in self.env and n.value is self.env[n.targets[0].id]:
+        if len(n.targets) == 1 and isinstance(n.targets[0], ast.Name) and n.targets[0].id in self.env:
             return None
         return n
 
@@ -892,6 +923,8 @@ def _aliases(fn):
         if hit:
             continue
         uses = loads.get(k, 0)
+        if uses == 0:
+            continue  # `_ = self.data`: evaluated for its effect (a property read), stays as written
         fresh = (isinstance(v, (ast.List, ast.Dict, ast.Set)) and not (getattr(v, "elts", None) or getattr(v, "keys", None))) or \
             (isinstance(v, ast.Call) and (v.func.attr if isinstance(v.func, ast.Attribute) else getattr(v.func, "id", "")) in FRESH)
         if _is_pure(v):
@@ -993,7 +1026,6 @@ class _Small(ast.NodeTransformer):
         for st in b:
             if isinstance(st, ast.Assign) and len(st.targets) == 1 and isinstance(st.targets[0], ast.Tuple) and isinstance(st.value, ast.Tuple) \
                     and len(st.targets[0].elts) == len(st.value.elts) and all(isinstance(t, ast.Name) for t in st.targets[0].elts) \
-                    and all(isinstance(v, (ast.Name, ast.Constant, ast.Attribute)) for v in st.value.elts) \
                     and not ({t.id for t in st.targets[0].elts} & {x.id for v in st.value.elts for x in ast.walk(v) if isinstance(x, ast.Name)}):
                 for t, v in zip(st.targets[0].elts, st.value.elts):
                     out.append(ast.copy_location(ast.Assign(targets=[t], value=v, lineno=st.lineno), st))
@@ -1065,4 +1097,37 @@ def _adjacent_def_use(fn):
             body[i + 1] = t.visit(nxt)
         del body[i]
     ast.fix_missing_locations(fn)
+    return fn
+
+
+def close_paths(fn):
+    """canonical function with every local that is assigned once to a plain attribute path (`_counts = self._data`) written out as that path, even if the
+    object behind it is stored to later. For *finding* what a function does to which attribute; not a statement about values."""
+    fn = copy.deepcopy(fn)
+    for _ in range(4):
+        table = _statements(fn)
+        stores, value, loads = {}, {}, {}
+        for st, order, loops, in_try, body, i in table:
+            nested = isinstance(st, (ast.FunctionDef, ast.AsyncFunctionDef, ast.ClassDef))
+            for n in _own_nodes(st):
+                if isinstance(n, ast.Name) and isinstance(n.ctx, ast.Load):
+                    loads[n.id] = loads.get(n.id, 0) + 1
+                elif isinstance(n, ast.Name) and not nested:
+                    stores[n.id] = stores.get(n.id, 0) + 1
+                    if isinstance(st, ast.Assign) and len(st.targets) == 1 and st.targets[0] is n:
+                        value[n.id] = st.value
+                elif isinstance(n, ast.arg):
+                    stores[n.arg] = stores.get(n.arg, 0) + 2
+        sel = {}
+        for k, v in value.items():
+            e = v
+            while isinstance(e, ast.Attribute):
+                e = e.value
+            if stores.get(k) == 1 and loads.get(k, 0) > 0 and isinstance(v, ast.Attribute) and isinstance(e, ast.Name) and e.id in ("self", "cls"):
+                sel[k] = v
+        if not sel:
+            break
+        fn = _Drop(sel).visit(fn)
+        fn = _SubstAll(sel).visit(fn)
+        ast.fix_missing_locations(fn)
     return fn
